@@ -227,7 +227,12 @@ pub fn chaos_run(cfg: &Cfg, sched: &[u8], server: &[u8]) -> Result<Info, String>
                 consumed += n;
                 if resp.is_some() {
                     got_response = true;
-                    break;
+                    // a response was handed out; if the flow is not ready to advance (an interim 100 nobody asked
+                    // for), the caller's only move is to ask again with the bytes that follow
+                    if rr.can_proceed() || (n == 0 && arrived == server.len()) {
+                        break;
+                    }
+                    continue;
                 }
                 if n == 0 && arrived == server.len() {
                     break;
